@@ -26,7 +26,7 @@ import tempfile
 from vlib.core import Acc
 from vlib import yamltext as yt
 
-VALUE_KINDS = ["int", "str", "list", "map", "eager", "lazy", "typed"]
+VALUE_KINDS = ["int", "str", "list", "map", "eager", "lazy", "typed", "eagerseq"]
 HEAD_FORMS = ["tagmap", "tagseq", "bare", "typemap"]
 TAIL_FORMS = HEAD_FORMS + ["typeargs"]
 KEYS = ["k", "m"]
@@ -63,6 +63,8 @@ def value_py(kind, form=None):
         return vp.VItemE(a=[1, [2]], b={"c": "x"})
     if kind == "lazy":
         return vp.VItemL([1, 2], {"c": [3]})
+    if kind == "eagerseq":
+        return vp.VItemE([10, [20]], {"d": {"e": 1}}, 30)
     raise ValueError(kind)
 
 
@@ -75,6 +77,9 @@ def value_node(kind, flow):
     if kind == "lazy":
         return yt.seq([yt.py([1, 2], flow), yt.py({"c": [3]}, flow)],
                       tag="!VItemL", flow=flow)
+    if kind == "eagerseq":
+        return yt.seq([yt.py([10, [20]], flow), yt.py({"d": {"e": 1}}, flow), yt.py(30, flow)],
+                      tag="!VItemE", flow=flow)
     if kind == "typed":
         return yt.mapping([("__type__", yt.scalar("verif_plugins.VItemL")),
                            ("c", yt.py([3], flow))], flow=flow)
@@ -157,7 +162,7 @@ def python_pipeline(case):
         objects = [head]
         while hasattr(objects[-1], "target") and len(objects) <= len(parts):
             objects.append(objects[-1].target)
-    except vp.VerifConstructionError as err:
+    except vp.FAIL_WITH as err:
         error = err
     log = list(vp.LOG)
     vp.reset()
@@ -314,6 +319,7 @@ def run_case(case, entries=("load", "load_pipeline")):
     import verif_plugins as vp
 
     text = document_text(case)
+    vp.FAIL_WITH = FAIL_WITH[case.get("fail_with", "VerifConstructionError")]
     for entry in entries:
         vp.reset()
         result, error = load_via(entry, text)
@@ -329,6 +335,20 @@ def run_case(case, entries=("load", "load_pipeline")):
 
 # ---------------------------------------------------------------------------------------
 # enumeration
+
+
+class _Late(dict):
+    def __missing__(self, name):
+        import verif_plugins as vp
+
+        return {"VerifConstructionError": vp.VerifConstructionError, "KeyError": KeyError,
+                "TypeError": TypeError, "AttributeError": AttributeError,
+                "LookupError": LookupError}[name]
+
+
+#: exception classes a failing constructor raises (by name, resolved late)
+FAIL_WITH = _Late()
+FAIL_KINDS = ["VerifConstructionError", "KeyError", "TypeError", "AttributeError"]
 
 
 def class_name(pos, size, parity, failing):
@@ -396,7 +416,10 @@ def grid_cases(prefix, size, parity, style, all_patterns_fail):
             yield make_case(forms, arguments, parity, style, None), entries
             if pattern == 0 or all_patterns_fail:
                 for fail in range(size):
-                    yield make_case(forms, arguments, parity, style, fail), entries
+                    for fail_with in (FAIL_KINDS if pattern == 0 else FAIL_KINDS[:1]):
+                        case = make_case(forms, arguments, parity, style, fail)
+                        case["fail_with"] = fail_with
+                        yield case, entries
 
 
 def small_options(tail, max_arity):
